@@ -138,7 +138,11 @@ def run_fault_retry(scn):
                 if "injected fault" not in str(e):
                     raise
                 raised += 1
-            except Exception:
+            except Exception as e:
+                if record.FP_GUARD in str(e) and record.partition_degenerate(solver):
+                    # the partition reached adjacent doubles (iteration steps ignore eps): floating-point domain limit, DESIGN.md section 3
+                    m.check("after:fp-guard")
+                    return {"violations": list(m.viol), "obs": {"fp_domain_exhausted": 1, "items_checked": m.items_checked}, "skip": "fp-domain-exhausted"}
                 if not any(e_["exc"] for e_ in prob.log):
                     raise
                 # C06 promises a faithful record, not that a search can always be continued after a failed evaluation (the interval
